@@ -122,6 +122,13 @@ def _inheritance_by_evaluation(ctx, ck, config_cls, cfg) -> bool:
     return True
 
 
+def _subterms19(t):
+    if isinstance(t, tuple):
+        yield t
+        for x in t:
+            yield from _subterms19(x)
+
+
 def _activation_generators(world, cfg, uses) -> set:
     """Generator context managers (@contextmanager) of config.py that set / reset the variable."""
     out = set()
@@ -186,7 +193,7 @@ def _scoped_activation(ck, world, cfg, config_cls, enter: ast.FunctionDef, exit_
             guarded = never_forwarded and after_yield
         ck.expect('K3', guarded, resets[0], f'{g.name}: reset() runs in the finally of the try that holds the yield: the previous configuration is restored however the block is left',
                   f'{g.name}: reset() is not in a finally around the yield: when the body of the with block raises, the generator is resumed with the exception at the yield, the reset is skipped '
-                  'and the configuration of the block stays active', instance=f'{g.name} restore on every exit')
+                  'and the configuration of the block stays active', instance=f'{g.name} restore on every exit', semantic=True)
         nyield = sum(1 for n in ast.walk(g) if isinstance(n, (ast.Yield, ast.YieldFrom)))
         ck.expect('K3', nyield == 1, g, f'{g.name} yields exactly once', f'{g.name} has {nyield} yields: it is not a single-scope context manager', instance=f'{g.name} single yield', nontrivial=False)
         # who may open a scope: only Config.__enter__
@@ -675,7 +682,8 @@ def run(ctx, ck) -> None:
 
             good = fresh(opts)
             ck.expect('K7', good, call, 'options= is a copy of self.config.solver_options',
-                      f'the solver call takes options={show(opts)} instead of a copy of the captured self.config.solver_options', instance='options')
+                      f'the solver call takes options={show(opts)} instead of a copy of the captured self.config.solver_options', instance='options',
+                      semantic=opts is not None and raw_opts in list(_subterms19(opts)))
         break
     cbs = [n for n in ast.walk(mv.node) if isinstance(n, ast.Call) and world.qualify(module_of(n), n.func) == 'jax.debug.callback']
     ret_paths = [p for p in function_paths(mv.node) if p.exit == 'return']
